@@ -325,7 +325,7 @@ def blocks (n dt : Nat) : List Op := (List.replicate n [Op.begin dt, Op.end_]).f
 def overHistory : List Op :=
   [.begin 1, .end_] ++ sixGauges 101 ++
   [.locks [⟨1, 0, 100, 3600⟩], .fund streamerAddr [6000000000000001000],
-   .createStream [6000000000000000000] sixRecs 101 1 2, .createStream [1000] [⟨1, 1⟩] 101 2 3] ++ blocks 4 3601
+   .createStream false [6000000000000000000] sixRecs 101 1 2, .createStream false [1000] [⟨1, 1⟩] 101 2 3] ++ blocks 4 3601
 
 /-- regression: the stream now hands out exactly its coins and the second stream stays covered -/
 example : (run (init 100 500) overHistory).streams.map (fun s => (s.coins, s.distributed)) =
@@ -335,7 +335,7 @@ example : (run (init 100 500) overHistory).streams.map (fun s => (s.coins, s.dis
 /-- regression: the exactly funded stream no longer stops block processing -/
 example : (run (init 100 500) ([.begin 1, .end_] ++ sixGauges 101 ++
       [.locks [⟨1, 0, 100, 3600⟩], .fund streamerAddr [6000000000000000000],
-       .createStream [6000000000000000000] sixRecs 101 1 2] ++ blocks 4 3601)).halted = false := by decide
+       .createStream false [6000000000000000000] sixRecs 101 1 2] ++ blocks 4 3601)).halted = false := by decide
 
 /-- what is still owed to the streams in the upcoming and active lists (as `GetModuleToDistributeCoins`
     sums them), per denom -/
@@ -380,7 +380,7 @@ theorem module_solvent_streamer_partial (now mi : Nat) (ops : List Op) (hw : ∀
 def retargetHistory : List Op :=
   [.begin 1, .end_, .createGauge 0 true 0 1 true [] 101 1, .createGauge 0 true 0 1 true [] 101 1,
    .createGauge 0 true 0 1 true [] 101 1, .locks [⟨1, 0, 100, 3600⟩], .fund streamerAddr [2000],
-   .createStream [1000] [⟨1, 1⟩, ⟨2, 1⟩] 101 1 2, .createStream [1000] [⟨3, 1⟩] 101 1 2,
+   .createStream false [1000] [⟨1, 1⟩, ⟨2, 1⟩] 101 1 2, .createStream false [1000] [⟨3, 1⟩] 101 1 2,
    .begin 3601, .end_, .begin 3601, .end_, .replaceDistr 1 [⟨2, 1⟩], .begin 10, .end_, .begin 10, .end_]
 
 theorem stream_bounded_retarget_counterexample :
@@ -411,8 +411,8 @@ theorem module_to_distribute_exact (s : State) (alloc : Coins) (h : moduleToDist
 def unsortedHistory : List Op :=
   [.begin 1, .end_, .createGauge 0 true 0 1 true [] 101 1, .createGauge 0 true 0 1 true [] 101 1,
    .locks [⟨1, 0, 100, 3600⟩], .fund streamerAddr [9000],
-   .createStream [3000] [⟨1, 1⟩, ⟨2, 1⟩] 101 1 1, .createStream [3000] [⟨1, 1⟩, ⟨2, 1⟩] 101 1 3,
-   .createStream [3000] [⟨1, 1⟩, ⟨2, 1⟩] 101 1 3, .begin 3601, .end_] ++
+   .createStream false [3000] [⟨1, 1⟩, ⟨2, 1⟩] 101 1 1, .createStream false [3000] [⟨1, 1⟩, ⟨2, 1⟩] 101 1 3,
+   .createStream false [3000] [⟨1, 1⟩, ⟨2, 1⟩] 101 1 3, .begin 3601, .end_] ++
   blocks 2 1200 ++ blocks 1 1201 ++ blocks 2 1200 ++ [.begin 1201]
 
 /-- the reference list is still [3, 2], but with limits 1, 3 and 500 every stream has handed out the same -/
@@ -423,8 +423,8 @@ example : (run (init 100 1) unsortedHistory).active.ids = [3, 2] ∧
 def midEpochHistory : List Op :=
   [.begin 1, .end_, .createGauge 0 true 0 1 true [] 101 1, .createGauge 0 true 0 1 true [] 101 1,
    .createGauge 0 true 0 1 true [] 101 1, .locks [⟨1, 0, 100, 3600⟩], .fund streamerAddr [9000],
-   .createStream [3000] [⟨1, 1⟩, ⟨2, 1⟩, ⟨3, 1⟩] 101 0 3] ++ blocks 2 86401 ++
-  [.createStream [3000] [⟨1, 1⟩, ⟨2, 1⟩, ⟨3, 1⟩] 172903 0 2, .begin 3601, .end_, .begin 10, .end_, .begin 10, .end_, .begin 86401]
+   .createStream false [3000] [⟨1, 1⟩, ⟨2, 1⟩, ⟨3, 1⟩] 101 0 3] ++ blocks 2 86401 ++
+  [.createStream false [3000] [⟨1, 1⟩, ⟨2, 1⟩, ⟨3, 1⟩] 172903 0 2, .begin 3601, .end_, .begin 10, .end_, .begin 10, .end_, .begin 86401]
 
 /-- D3 (not repaired): a `day` stream that becomes active at an `hour` boundary is served in its first
     (partial) day only when the `day` pointer has not yet reached the end: with limit 1 it hands out 1500,
